@@ -191,6 +191,13 @@ pub fn unsigned_shift<'a>(term: &Term<'a>, cutoff: usize, amount: usize) -> Term
     signed_shift(term, cutoff, isize::try_from(amount).unwrap()).unwrap()
 }
 
+// Verification hook: the number of times `open` copied an unresolved unifier on this thread.
+#[cfg(feature = "verif")]
+thread_local! {
+    pub static VERIF_UNRESOLVED_UNIFIERS_OPENED: std::cell::Cell<u64> =
+        const { std::cell::Cell::new(0) };
+}
+
 // Opening is the act of replacing a free variable by a term and decrementing the De Bruijn indices
 // of the variables corresponding to entries in the context appearing earlier than the one
 // corresponding to the variable being substituted. This function can also shift the term to insert
@@ -205,6 +212,11 @@ pub fn open<'a>(
 ) -> Term<'a> {
     match &term_to_open.variant {
         Unifier(subterm, subterm_shift) => {
+            #[cfg(feature = "verif")]
+            if subterm.borrow().is_none() {
+                VERIF_UNRESOLVED_UNIFIERS_OPENED.with(|count| count.set(count.get() + 1));
+            }
+
             // We `clone` the borrowed `subterm` to avoid holding the dynamic borrow for too long.
             { subterm.borrow().clone() }.map_or_else(
                 || Term {
